@@ -389,6 +389,7 @@ impl Check for C03 {
             stdin: input.clone(),
             fuel,
             max_idle: u64::MAX,
+            max_commands: u64::MAX,
             log_exec: true,
         };
         let outcome = run_session(cap, &session);
